@@ -15,7 +15,19 @@ ROM_ENABLED = True        # contrib rep_one_min_max in the corpus (needs the mod
 # ---------------------------------------------------------------- probes: sub-rules with a known behaviour class
 # each probe: (name, class, builder(g) -> type expression)
 
-def probes(raisers: bool = True, heavy: bool = False):
+def probes(raisers: bool = True, heavy: bool = False, eol: bool = False):
+    if eol:
+        # end-of-line probes (C06): what a rule that scans for, or steps over, line ends is built from
+        return [
+            ('eol', 'atom', lambda g: P('eol')),
+            ('eolf', 'nullable', lambda g: P('eolf')),
+            ('lf', 'atom', lambda g: P('one', C(10))),
+            ('cr', 'atom', lambda g: P('one', C(13))),
+            ('a', 'atom', lambda g: P('one', C(A_))),
+            ('a_eol', 'consume-then-fail', lambda g: P('seq', P('one', C(A_)), P('eol'))),
+            ('any', 'atom', lambda g: P('any')),
+            ('ab', 'consume-then-fail', lambda g: P('seq', P('one', C(A_)), P('one', C(B_)))),
+        ]
     ps = [
         ('a', 'atom', lambda g: P('one', C(A_))),
         ('ab', 'consume-then-fail', lambda g: P('seq', P('one', C(A_)), P('one', C(B_)))),
@@ -216,11 +228,11 @@ def sample_inputs(rng: random.Random, alphabet: Sequence[int], maxlen: int, cap:
 def systematic(rng: random.Random, gid_prefix: str, kind_filter: Callable[[str, str], bool],
                raisers: bool, max_grammars: Optional[int] = None, probe_cap: int = 10,
                heavy: bool = False, ctx_names: Optional[Sequence[str]] = None,
-               actions: Optional[Callable[[random.Random, Grammar, List[int]], None]] = None
+               actions: Optional[Callable[[random.Random, Grammar, List[int]], None]] = None, eol_probes: bool = False
                ) -> List[Tuple[Grammar, List[int], Dict]]:
     """One grammar per (kind, probe assignment); its roots are the kind placed in every context.
     Returns (grammar, root ids, meta)."""
-    ps = probes(raisers, heavy)
+    ps = probes(raisers, heavy, eol_probes)
     ks = [k for k in kinds(False, raisers) if kind_filter(k[0], k[3])]
     cs = [c for c in contexts(raisers) if ctx_names is None or c[0] in ctx_names]
     combos = []
@@ -242,7 +254,7 @@ def systematic(rng: random.Random, gid_prefix: str, kind_filter: Callable[[str, 
     # (the most demanding one for rewinding: every sub-rule can fail after consuming), then one more assignment per kind,
     # then the remaining assignments shuffled
     rng.shuffle(combos)
-    ctf = next(i for i, p in enumerate(ps) if p[0] == 'ab')
+    ctf = next(i for i, p in enumerate(ps) if p[0] == ('eol' if eol_probes else 'ab'))
     by_kind = {}
     for cb in combos:
         by_kind.setdefault(cb[0], []).append(cb)
